@@ -6,6 +6,8 @@ import (
 	"go/ast"
 	"go/parser"
 	"go/token"
+	"io"
+	"log"
 	"os"
 	"os/exec"
 	"path/filepath"
@@ -53,6 +55,55 @@ func (it *item) srcArgs() (src string, args []string) {
 		args = []string{"-in-file", "defs.go", "-types", strings.Join(it.sc.typeNames(), ",")}
 	}
 	return
+}
+
+func (it *item) assertSource() string {
+	switch it.gen {
+	case "genum":
+		return it.gc.assertSource(it.pkg)
+	case "gerror":
+		return it.ec.assertSource(it.pkg)
+	}
+	return it.sc.assertSource(it.pkg)
+}
+
+// prevArgs: the arguments of a preceding run whose output is LONGER than the target's (nil if the
+// case has none).
+func (it *item) prevArgs() []string {
+	switch it.gen {
+	case "genum":
+		c := it.gc
+		if c.prev == "" {
+			return nil
+		}
+		o := c.opts
+		if c.prev == "allon" {
+			o = [5]bool{true, true, true, true, false}
+		}
+		args := []string{"-in", "defs.go", "-types", strings.Join(c.allTypeNames(), ","),
+			"-json=" + strconv.FormatBool(o[0]), "-yaml=" + strconv.FormatBool(o[1]), "-text=" + strconv.FormatBool(o[2]),
+			"-caseInsensitive=" + strconv.FormatBool(o[3]), "-disableTraits=" + strconv.FormatBool(o[4])}
+		if p := c.parsable(); len(p) > 0 {
+			args = append(args, "-parsableByTraits", strings.Join(p, ","))
+		}
+		return args
+	case "gerror":
+		c := it.ec
+		if c.prev == "" {
+			return nil
+		}
+		args := []string{"-in-file", "defs.go", "-types", strings.Join(c.allTypeNames(), ",")}
+		if c.skip && c.prev != "noskip" {
+			args = append(args, "-skipConvertGen")
+		}
+		return args
+	case "gsort":
+		if it.sc.prev == "" {
+			return nil
+		}
+		return []string{"-in-file", "defs.go", "-types", strings.Join(it.sc.allTypeNames(), ",")}
+	}
+	return nil
 }
 
 // inProcess runs the generator's exported API inside this process (cwd = package directory).
@@ -176,6 +227,24 @@ func (w *world) observe14(header string, k int) *c14obs {
 			}
 			if !check("same-process", d2) {
 				break
+			}
+		}
+	}
+	// once per case: the run made over a DIFFERENT, longer previous output (more -types / more
+	// options before) must write what a fresh package gets
+	if prev := it.prevArgs(); prev != nil && o.repeat == "" {
+		d := mk("prev")
+		cmd := exec.Command(w.bins[it.gen], prev...)
+		cmd.Dir = d
+		cmd.Env = append(append([]string{}, w.env...), "PWD="+d, "GOFILE=defs.go", "GOPACKAGE=rp")
+		w.mu.Lock()
+		w.genRuns++
+		w.mu.Unlock()
+		if _, err := cmd.CombinedOutput(); err == nil {
+			if err := cli(d); err != nil {
+				o.repeat = "differs:error-over-different-previous-output"
+			} else {
+				check("over-different-previous-output", d)
 			}
 		}
 	}
@@ -315,6 +384,7 @@ func run14(f *hx.Flags, w *world) {
 		p := strings.SplitN(kv, "=", 2)
 		os.Setenv(p[0], p[1])
 	}
+	log.SetOutput(io.Discard) // the in-process generator runs log their warnings through package log
 	m := &impl14{w: w, obs: map[string]*c14obs{}}
 	r := hx.NewRunner(f, "h-gensweep", m, "non-trivial = the definition puts at least two entries into a map the generator walks (two sorters of one struct, two duplicate groups, two active imports) or has at least two types / values / tagged fields")
 	r.Compare = compare14
@@ -336,10 +406,11 @@ func run14(f *hx.Flags, w *world) {
 	r.RunCorpus()
 	g := &gen{r: r, w: w, thorough: f.Tier == "thorough"}
 	k := 2
-	nrand := 2
+	nrand := 1
 	if g.thorough {
 		k, nrand = 5, 30
 	}
+	kOf := map[string]int{} // header -> rounds, where a case wants its own number
 	var queue []hx.Case
 	add := func(c hx.Case) { queue = append(queue, c) }
 	// gsort: >= 2 sorters per struct, value and pointer, two structs
@@ -347,8 +418,13 @@ func run14(f *hx.Flags, w *world) {
 		{two: true, fields: []gsortField{{"A", "int", []string{"ByA,1", "*ByAP,2"}}, {"B", "string", []string{"ByA,2", "*ByAP,1", "Zed,1"}}, {"C", "bool", []string{"Mid,1"}}}},
 		{fields: []gsortField{{"A", "int", []string{"ByA,1"}}, {"R", "rank", []string{"*ByR,1,String()"}}}},
 	}
+	gs = append(gs, &gsortCase{two: true, only1: true, prev: "moretypes", fields: []gsortField{{"A", "int", []string{"ByA,1", "*ByAP,1"}}, {"B", "string", []string{"ByA,2"}}}})
 	for i := 0; i < r.N(nrand); i++ {
-		gs = append(gs, g.randomGsort())
+		c := g.randomGsort()
+		if g.thorough && i%2 == 0 {
+			c.two, c.only1, c.prev = true, true, "moretypes"
+		}
+		gs = append(gs, c)
 	}
 	for _, c := range gs {
 		var req []string
@@ -367,7 +443,12 @@ func run14(f *hx.Flags, w *world) {
 				}
 			}
 		}
-		ls := lines14(c.header(), k)
+		kk := k
+		if c.prev != "" && !g.thorough {
+			kk = 1
+		}
+		ls := lines14(c.header(), kk)
+		kOf[ls[0]] = kk
 		if len(req) > 0 {
 			ls = append(ls, "go_ gsort order "+strings.Join(req, " "))
 		}
@@ -378,8 +459,13 @@ func run14(f *hx.Flags, w *world) {
 		{two: true, fields: []gerrField{{"Zeta", "int", "pc"}, {"Alpha", "string", "p"}, {"Mid", "dur", "c"}, {"Beta", "status", "n:Shown:pc"}, {"Plain", "string", ""}}},
 		{skip: true, custom: true, fields: []gerrField{{"B", "int", "c"}, {"A", "int", "c"}}},
 	}
+	ge = append(ge, &gerrorCase{two: true, only1: true, prev: "moretypes", fields: []gerrField{{"Code", "int", "pc"}, {"Also", "string", "c"}}})
 	for i := 0; i < r.N(nrand); i++ {
-		ge = append(ge, g.randomGerror())
+		c := g.randomGerror()
+		if g.thorough && i%2 == 0 {
+			c.two, c.only1, c.prev = true, true, "moretypes"
+		}
+		ge = append(ge, c)
 	}
 	for _, c := range ge {
 		var req []string
@@ -393,7 +479,12 @@ func run14(f *hx.Flags, w *world) {
 			}
 			req = append(req, fl.name+":"+t)
 		}
-		ls := lines14(c.header(), k, strings.TrimSpace("go_ gerror fields "+strings.Join(req, " ")))
+		kk := k
+		if c.prev != "" && !g.thorough {
+			kk = 1
+		}
+		ls := lines14(c.header(), kk, strings.TrimSpace("go_ gerror fields "+strings.Join(req, " ")))
+		kOf[ls[0]] = kk
 		add(hx.Case{Lines: ls, Domain: true, Nontrivial: len(req) >= 2, Tags: []string{"gerror"}})
 	}
 	// genum: two duplicate groups with traits, two active imports, two types
@@ -402,12 +493,35 @@ func run14(f *hx.Flags, w *world) {
 		{n: 3, under: "uint8", shape: "two", traits: cols("dur+p,fmode,label"), opts: [5]bool{true, true, true, true, false}},
 		{n: 17, under: "int", shape: "dup", opts: [5]bool{true, false, true, false, false}},
 	}
+	// several duplicated values per enum: aliases that become the primary name without a trait row
+	// of their own (AAlias<i>), aliases that do not (AZed<i>), next to values with a single name
+	gn = append(gn,
+		&genumCase{n: 9, under: "int", shape: "alias", traits: cols("ustr,uint"), opts: [5]bool{true, true, true, false, false}},
+		&genumCase{n: 3, under: "int", shape: "plain", traits: cols("ustr+p,label"), opts: [5]bool{false, false, true, false, false}, prev: "allon"})
 	for i := 0; i < r.N(nrand); i++ {
-		gn = append(gn, g.randomGenum())
+		c := g.randomGenum()
+		if g.thorough {
+			switch i % 3 {
+			case 0:
+				if len(c.traits) > 0 && c.n >= 3 {
+					c.shape = "alias"
+				}
+			case 1:
+				c.prev = "allon"
+			}
+		}
+		gn = append(gn, c)
 	}
 	for _, c := range gn {
-		ls := lines14(c.header(), k)
-		if c.shape == "plain" || c.shape == "two" {
+		kk := k
+		if c.shape == "alias" {
+			kk = k + 1 // 12+ generations where an order dependence would sit
+		} else if c.prev != "" && !g.thorough {
+			kk = 1
+		}
+		ls := lines14(c.header(), kk)
+		kOf[ls[0]] = kk
+		if (c.shape == "plain" || c.shape == "two") && c.bad == "" {
 			var req []string
 			for i := c.n - 1; i >= 0; i-- {
 				req = append(req, fmt.Sprintf("%d:AV%d", i, i))
@@ -426,9 +540,13 @@ func run14(f *hx.Flags, w *world) {
 			go func() {
 				defer wg.Done()
 				for c := range ch {
-					o := w.observe14(c.Lines[0], k)
+					kk := k
+					if v, ok := kOf[c.Lines[0]]; ok {
+						kk = v
+					}
+					o := w.observe14(c.Lines[0], kk)
 					omu.Lock()
-					m.obs[c.Lines[0]+"#"+strconv.Itoa(k)] = o
+					m.obs[c.Lines[0]+"#"+strconv.Itoa(kk)] = o
 					omu.Unlock()
 				}
 			}()
